@@ -130,7 +130,7 @@ func TestC18_P_RecursiveImport(t *testing.T) {
 		var flakies []flaky
 		if !allowFifo {
 			for i := rapid.IntRange(0, 2).Draw(t, "flakyImports"); i > 0; i-- {
-				flakies = append(flakies, flaky{rapid.IntRange(1, 14).Draw(t, "flakyAt"), genFaultKind(t), rapid.SampledFrom([]string{"open", "write", "commit"}).Draw(t, "flakyStage")})
+				flakies = append(flakies, flaky{rapid.IntRange(1, 14).Draw(t, "flakyAt"), genWriteFaultKind(t), rapid.SampledFrom([]string{"open", "write", "commit"}).Draw(t, "flakyStage")})
 			}
 		}
 		var flakyErr error
@@ -152,13 +152,13 @@ func TestC18_P_RecursiveImport(t *testing.T) {
 				must(t, "BuildUnixFSRecursive into a flaky store", func() { fl, _, ferr = builder.BuildUnixFSRecursive(p, fls) })
 				if ferr == nil && flakyErr == nil {
 					if fl == nil {
-						flakyErr = fmt.Errorf("import with write #%d failing at %s (%s) returned neither a link nor an error", f.k, f.stage, faultKinds[f.kind].Name)
+						flakyErr = fmt.Errorf("import with write #%d failing at %s (%s) returned neither a link nor an error", f.k, f.stage, faultKindName(f.kind))
 					} else {
 						fst.FailOpenAt, fst.FailWriteAt, fst.FailCommitAt = 0, 0, 0
 						var ce error
 						must(t, "read back flaky import", func() { ce = c18Compare(fst, fls, cidOf(fl), root, "") })
 						if ce != nil {
-							flakyErr = fmt.Errorf("import with write #%d failing at %s (%s) reported success, but the DAG it returned is not the tree: %v", f.k, f.stage, faultKinds[f.kind].Name, ce)
+							flakyErr = fmt.Errorf("import with write #%d failing at %s (%s) reported success, but the DAG it returned is not the tree: %v", f.k, f.stage, faultKindName(f.kind), ce)
 						}
 					}
 				}
